@@ -364,10 +364,18 @@ impl State {
                 let column_name = ColumnName(fields[2].to_string());
                 self.mps.integer.remove(&column_name);
                 self.mps.real.remove(&column_name);
+                self.mps.l.insert(column_name.clone(), 0.0);
+                self.mps.u.insert(column_name.clone(), 1.0);
                 self.mps.binary.insert(column_name);
             }
-            //   FR    free variable
-            "FR" | "PL" => { /* do nothing */ }
+            //   FR    free variable      -inf < x < inf
+            "FR" => {
+                let column_name = ColumnName(fields[2].to_string());
+                self.mps.l.insert(column_name.clone(), f64::NEG_INFINITY);
+                self.mps.u.insert(column_name, f64::INFINITY);
+            }
+            //   PL    upper bound +inf (the default)
+            "PL" => { /* do nothing */ }
             //   UI    upper (positive) integer
             "UI" => {
                 let column_name = ColumnName(fields[2].to_string());
